@@ -58,6 +58,18 @@ TCreate(E) ==
   /\ ViewOK(E.c, E.view)'
   /\ UNCHANGED stack
 
+IsDup(E) == E.op.o = "proof" /\ "dup" \in DOMAIN E.op
+\* A proof delivered a second time: not a well-formed answer any more (its upgrade does not start at
+\* the replica's length), so refusal is fine and changes nothing; acceptance is judged by TOp.
+TDupRefused(E) ==
+  /\ E.e = "op" /\ IsDup(E)
+  /\ ~(E.ret.t = "ok" /\ E.ret.applied)
+  /\ E.ret.t \in {"ok", "err"}
+  /\ \A s \in 1..Len(E.ev) : E.ev[s] = <<>>
+  /\ E.jn = 0
+  /\ UNCHANGED <<truth, cores, stack>>
+  /\ ViewOK(E.c, E.view)
+
 TOp(E) ==
   /\ E.e = "op" /\ E.op.o \notin {"forged", "rawreq"}
   /\ \E r \in {Outcome(E.c, E.op)} :      \* bound, hence rigid under the prime below
@@ -192,7 +204,7 @@ TNext ==
   /\ \E E \in {Rec[l]} :
        \/ TReset(E) \/ TCreate(E) \/ TOp(E) \/ TCrashOpen(E) \/ TIoErr(E)
        \/ TCrashCreate(E) \/ TPush(E) \/ TPop(E)
-       \/ TForged(E) \/ TRawReq(E) \/ TSynced(E) \/ TForeign(E) \/ TConfig(E) \/ TBulk(E)
+       \/ TForged(E) \/ TRawReq(E) \/ TSynced(E) \/ TForeign(E) \/ TConfig(E) \/ TBulk(E) \/ TDupRefused(E)
 
 TInit == truth = Empty /\ cores = Empty /\ stack = <<>> /\ l = 1
 
